@@ -59,6 +59,10 @@ mod substream;
 
 pub mod config;
 
+/// Verification hooks: the real `QuicTransport` behind a public facade. Adds code only.
+#[cfg(feature = "verif")]
+pub mod verif_transport;
+
 /// Logging target for the file.
 const LOG_TARGET: &str = "litep2p::quic";
 
